@@ -52,6 +52,16 @@ def c01_scenarios():
     s.append(scenario("pollmelt-pollmelt-success", "C01", pend, [{"op": "pollmelt", "q": "lq1", "status": ["succeeded", "succeeded"]},
                                                                  {"op": "pollmelt", "q": "lq1"}]))
     s.append(scenario("melt-pollmelt", "C01", pend + [mq(3)], [melt("lq2", "b1"), {"op": "pollmelt", "q": "lq1", "status": ["failed"]}]))
+    # a window that needs more requests than the enumeration can afford, run as one fixed schedule: melt A's payment fails; before
+    # A cleans up, a poll of its quote releases the inputs and melt C locks them for another quote (payment in flight); then A
+    # finishes.  Follow-up: a swap of the inputs, and C's payment succeeds.
+    late = scenario("melt-fails-late-cleanup", "C01", FUND + [mq(7), mq(6)],
+                    [melt("lq1", "b1", pay=["failed"], status=["failed"]), {"op": "pollmelt", "q": "lq1", "status": ["failed"]},
+                     melt("lq2", "b1", pay=["pending"])],
+                    post=PROBE + [swap("b1", [8]), {"op": "pollmelt", "q": "lq2", "status": ["succeeded"]}, {"op": "checkstate", "ys": ["b1"]},
+                                  {"op": "balances"}])
+    late["schedules"] = [["p1"] * 8 + ["p2"] * 6 + ["p3"] * 8]
+    s.append(late)
     if tier() == "thorough":
         s.append(scenario("swap-swap-swap", "C01", FUND, [swap("b1", [8]), swap("b1", [4, 4]), swap("b1", [2, 2, 4])]))
         s.append(scenario("swap-swap-melt", "C01", FUND + [mq(7)], [swap("b1", [8]), swap("b1", [4, 4]), melt("lq1", "b1")]))
